@@ -193,6 +193,24 @@ class Driver:
         ml_utils.generate_unicode_uuid = lambda: _DRIVER.gen_uuid()
         action_heartbeat_sender.add_action = lambda a: None
         action_heartbeat_sender.remove_action = lambda a: None
+        _install_fast_schema_check()
+        # log every individual compare-and-swap of a workflow / task state (C03 oracle granularity)
+        orig_wf_cas = db_api.update_workflow_execution_state
+        orig_task_cas = db_api.update_task_execution_state
+
+        def wf_cas(id, cur_state, state):
+            res = orig_wf_cas(id=id, cur_state=cur_state, state=state)
+            if res is not None:
+                _DRIVER.cas_log.append(('wf', id, cur_state, state))
+            return res
+
+        def task_cas(id, cur_state, state):
+            res = orig_task_cas(id=id, cur_state=cur_state, state=state)
+            if res is not None:
+                _DRIVER.cas_log.append(('task', id, cur_state, state))
+            return res
+        db_api.update_workflow_execution_state = wf_cas
+        db_api.update_task_execution_state = task_cas
         cls.booted = True
 
     def _ctx(self):
@@ -283,7 +301,7 @@ class Driver:
         try:
             res = fn(*a, **kw)
             return Outcome.OK, res
-        except (exc.MistralException, ml_exc.MistralException) as e:
+        except (exc.MistralException, exc.MistralError, ml_exc.MistralException) as e:
             return Outcome.DECLARED, e
         except Exception as e:  # noqa
             self.entry_errors.append({'event': label, 'type': type(e).__name__, 'msg': str(e)[:300],
@@ -403,17 +421,28 @@ class Driver:
                     self._in_job = False
                 legacy_scheduler.LegacyScheduler.delete_calls([db_call])
             else:
+                # mirrors DefaultScheduler._process_memory_job (the in-memory path) when this
+                # instance still holds the job, else _process_store_jobs (the store poll path)
                 sch = self.sched
-                with db_api.transaction():
-                    job = db_api.get_scheduled_job(row_id)
-                if not sch._capture_scheduled_job(job):
-                    return 'lost-capture'
-                self._in_job = True
+                job = sch.in_memory_jobs.get(row_id)
                 try:
-                    self._invoke_default(sch, job)
+                    if job is None:
+                        with db_api.transaction():
+                            job = db_api.get_scheduled_job(row_id)
+                            if not sch._capture_scheduled_job(job):
+                                return 'lost-capture'
+                    elif not sch._capture_scheduled_job(job):
+                        return 'lost-capture'
+                    self._in_job = True
+                    try:
+                        self._invoke_default(sch, job)
+                    finally:
+                        self._in_job = False
+                    sch._delete_scheduled_job(job)
                 finally:
-                    self._in_job = False
-                sch._delete_scheduled_job(job)
+                    with sch._cond:
+                        sch.in_memory_jobs.pop(row_id, None)
+                        sch._heap = [h for h in sch._heap if h[2].id != row_id]
             return 'ran'
         return self._call('job', body)[0]
 
@@ -602,6 +631,29 @@ class Driver:
     def quiescent(self):
         return not [e for e in self.enabled() if not self._is_integrity_job(e)] and not [
             j for j in self.jobs() if j['func'] != '_check_and_fix_integrity']
+
+
+def _install_fast_schema_check():
+    """jsonschema.validate() re-validates the *schema* against its metaschema on every call
+    (most of the cost of registering a workflow).  Mistral's schemas are constants: check each
+    distinct schema once.  Instance validation is untouched."""
+    import jsonschema
+    from jsonschema import validators as jv
+    from jsonschema.exceptions import best_match
+    checked = set()
+
+    def validate(instance, schema, cls=None, *args, **kwargs):
+        if cls is None:
+            cls = jv.validator_for(schema)
+        key = json.dumps(schema, sort_keys=True, default=str)
+        if key not in checked:
+            cls.check_schema(schema)
+            checked.add(key)
+        validator = cls(schema, *args, **kwargs)
+        error = best_match(validator.iter_errors(instance))
+        if error is not None:
+            raise error
+    jsonschema.validate = validate
 
 
 _FAKE_CLIENT = _FakeEngineClient()
